@@ -139,8 +139,8 @@ Definition prop_step (nres : nat) (tr : tracker) (ex : nat -> nat) (ob : C18_obs
        forallb (fun r => negb (Nat.eqb (open_count tr' r) 0) || Z.eqb (nthz (ob_watch ob) r) 0) (seq 0 nres));
     ("informer-stopped-while-subscribed",
        forallb (fun r => Nat.eqb (open_count tr' r) 0 || Z.ltb 0 (nthz (ob_watch ob) r)) (seq 0 nres));
-    (* a well-formed call never panics *)
-    ("panic", negb (ob_panic ob && wf_step tr o))
+    (* no call ever panics (a repeated Close is a no-op) *)
+    ("panic", negb (ob_panic ob))
   ].
 
 Fixpoint prop_steps (nres : nat) (k : nat) (tr : tracker) (ex : nat -> nat) (l : list C18_obs) : option string :=
